@@ -69,6 +69,7 @@ class Conn:
         self.nreq = 0
         self.inbox = []           # decoded messages not consumed by a monitor (for custom checks)
         self.pings = collections.deque()
+        self.msglog = []
         self.ledger = True        # responses / notifications on this connection are matched against requests
         self.last_seq = -1
 
@@ -457,6 +458,8 @@ class Session:
             return
         # a JSON message
         self.stats["msgs_from_daemon"] += 1
+        if c.keep_log:
+            c.msglog.append(obj)
         if not isinstance(obj, dict):
             if c.ledger:
                 self.v("rpc/output-not-an-object", payload[:200])
@@ -998,6 +1001,7 @@ METHODS = ("add", "remove", "change", "set", "call", "fetch", "unfetch", "get", 
 
 # defaults for attributes set lazily
 Conn.closing = False
+Conn.keep_log = False
 Conn.wire_done = False
 Conn.torn_reported = False
 Conn.close_reported = False
